@@ -4,54 +4,11 @@
   `Deserializer(cls).deserialize` (Sem/Deser.deserialize = per-field pass + constructor), for every
   flag setting.  Built on `exact_scalar` (Lemmas/SchemaExact.lean) per member.
 -/
-import TypedpyModel.Lemmas.SchemaExact
+import TypedpyModel.Lemmas.SchemaExactField
 namespace Typedpy.Sch
 open Typedpy
 
-/-! ### class level of exactness: flat classes over the exact scalar fragment -/
-
-/-- no exact scalar schema admits `null` -/
-theorem c08_exact_not_null (R S) (f : FieldDecl) (hf : exactScalar f = true) :
-    jsV R S (emit true f) .none = false := by
-  cases hv : jsV R S (emit true f) .none with
-  | false => rfl
-  | true =>
-    exfalso
-    cases f with
-    | integer o =>
-      simp only [emit] at hv
-      have := (jsV_numKws_inv R S "integer" true o .none hv).1
-      simp [typeIs] at this
-    | number o =>
-      simp only [emit] at hv
-      have := (jsV_numKws_inv R S "number" false o .none hv).1
-      simp [typeIs] at this
-    | float o =>
-      simp only [emit] at hv
-      have := (jsV_numKws_inv R S "number" false o .none hv).1
-      simp [typeIs] at this
-    | string lo hi pat =>
-      simp only [emit] at hv
-      obtain ⟨s, hs, _⟩ := jsV_strKws_inv R S lo hi pat .none hv
-      cases hs
-    | boolean =>
-      simp only [emit] at hv
-      have hty : typeIs "boolean" .none = true := by
-        simpa [jsV, getKw, kw, keyIs, jsKws, kwOf, kwOfStr, kwNode, kwLeaf, typeOk] using hv
-      simp [typeIs] at hty
-    | enumLit vs =>
-      simp only [exactScalar, and_true_iff'] at hf
-      simp only [emit] at hv
-      rw [jsV_enum] at hv
-      have hm := jsonMem_pyMem .none vs hf.2 hv
-      rw [pyMem_none_false vs hf.2] at hm
-      simp at hm
-    | enumCls cls names =>
-      simp only [emit] at hv
-      rw [jsV_enum] at hv
-      obtain ⟨n, hn, _⟩ := jsonMem_str_inv .none names hv
-      cases hn
-    | _ => simp [exactScalar] at hf
+/-! ### class level of exactness: flat classes over the exact field fragment (scalars, Array[X], Tuple[X] at any depth) -/
 
 /-- the keyword arguments read off a JSON object are the object's members -/
 theorem c08_lookup_kwOfDict (n : String) : ∀ (kvs : List (PyVal × PyVal)) (kw : List (String × PyVal)),
@@ -158,68 +115,6 @@ theorem c08_mem_unique (n : String) (f g : FieldDecl) : ∀ fields : List (Strin
     · cases h2; exact absurd h1 (fun h => hno f h)
     · exact c08_mem_unique n f g rest hnd.2 h1 h2
 
-/-- `construct_fields_map` over exact scalar fields succeeds when every present non-null member is
-    admitted by its field's schema; every argument it produces validates -/
-theorem c08_deserFields_ok (O : Oracles) (R S)
-    (hS : ∀ p s, startAnchored p = true → S p s = true → O.reMatch p s = true)
-    (opts : DeserOpts) (c : ClassOpts) (kw : List (String × PyVal)) :
-    ∀ fs : List (String × FieldDecl), exactFields fs = true →
-      (∀ n f, (n, f) ∈ fs → ∀ v, lookup n kw = some v → jsV R S (emit true f) v = true) →
-      ∃ args, deserFields O opts c kw fs false = .ok args
-        ∧ (∀ n y, lookup n args = some y → ∃ f y', (n, f) ∈ fs ∧ validate O f y = .ok y')
-        ∧ (∀ n f, (n, f) ∈ fs → (lookup n kw).isSome = true → (lookup n args).isSome = true)
-        ∧ (∀ a ∈ args, (fs.map (·.1)).contains a.1 = true)
-  | [], _, _ => ⟨[], by simp [deserFields], by simp [lookup], by simp, by simp⟩
-  | (name, f) :: rest, hex, hadm => by
-    simp only [exactFields, and_true_iff'] at hex
-    obtain ⟨args, h1, h2, h3, h4⟩ := c08_deserFields_ok O R S hS opts c kw rest hex.2
-      (fun n g hm v hv => hadm n g (by simp [hm]) v hv)
-    cases hl : lookup name kw with
-    | none =>
-      refine ⟨args, by simp [deserFields, hl, h1], ?_, ?_, ?_⟩
-      · intro n y hy
-        obtain ⟨g, y', hm, hv⟩ := h2 n y hy
-        exact ⟨g, y', by simp [hm], hv⟩
-      · intro n g hm hs
-        rcases List.mem_cons.mp hm with heq | hm'
-        · cases heq; simp [hl] at hs
-        · exact h3 n g hm' hs
-      · intro a ha
-        have := h4 a ha
-        simp only [List.map_cons, List.contains_cons, Bool.or_eq_true]
-        right; exact this
-    | some v =>
-      have hjs := hadm name f (by simp) v hl
-      have hnn : v.isNone = false := by
-        cases v <;> simp [PyVal.isNone]
-        rw [c08_exact_not_null R S f hex.1] at hjs
-        simp at hjs
-      obtain ⟨y, y', hd, hv⟩ := exact_scalar O R S hS opts c.ignoreNone f v hex.1 hjs
-      refine ⟨(name, y) :: args, by simp [deserFields, hl, hnn, hd, h1], ?_, ?_, ?_⟩
-      · intro n z hz
-        by_cases hn : n = name
-        · subst hn
-          simp [lookup] at hz
-          subst hz
-          exact ⟨f, y', by simp, hv⟩
-        · have hne : (n == name) = false := by simpa using hn
-          simp only [lookup, hne, Bool.false_eq_true, if_false] at hz
-          obtain ⟨g, z', hm, hvz⟩ := h2 n z hz
-          exact ⟨g, z', by simp [hm], hvz⟩
-      · intro n g hm hs
-        by_cases hn : n = name
-        · subst hn; simp [lookup]
-        · have hne : (n == name) = false := by simpa using hn
-          simp only [lookup, hne, Bool.false_eq_true, if_false]
-          rcases List.mem_cons.mp hm with heq | hm'
-          · cases heq; exact absurd rfl hn
-          · exact h3 n g hm' hs
-      · intro a ha
-        simp only [List.map_cons, List.contains_cons, Bool.or_eq_true]
-        rcases List.mem_cons.mp ha with rfl | ha'
-        · left; simp
-        · right; exact h4 a ha'
-
 theorem c08_lookup_append_skip {α} (n : String) (xs ys : List (String × α))
     (h : ∀ a ∈ xs, (a.1 == n) = false) : lookup n (xs ++ ys) = lookup n ys := by
   induction xs with
@@ -267,88 +162,353 @@ theorem c08_emitP_mem_of (fx : Bool) (n : String) (f : FieldDecl) : ∀ fields :
     · cases heq; simp
     · simp [c08_emitP_mem_of fx n f rest h']
 
-/-- **class level of exactness** (flat classes over the exact scalar fragment, no defaults, not a field
-    wrapper): every JSON object the class's schema admits is accepted by the Deserializer — the
-    per-field pass succeeds on every member and the constructor accepts the resulting arguments
-    (required present, no undeclared key unless allowed, every field validates) -/
-theorem c08_exact_class (O : Oracles) (R : String → PyVal → Bool) (S : String → String → Bool)
+theorem c08_jsonDoc_kw : ∀ (kvs : List (PyVal × PyVal)), jsonDocP kvs = true →
+    ∃ kw, kwOfDict kvs = some kw ∧ ∀ a ∈ kw, jsonDoc a.2 = true
+  | [], _ => ⟨[], rfl, by simp⟩
+  | (k, v) :: rest, h => by
+    simp only [jsonDocP, and_true_iff'] at h
+    obtain ⟨kw, hkw, hall⟩ := c08_jsonDoc_kw rest h.2
+    cases k <;> simp [isStrJ] at h
+    rename_i s
+    refine ⟨(s, v) :: kw, by simp [kwOfDict, hkw], ?_⟩
+    intro a ha
+    rcases List.mem_cons.mp ha with rfl | ha'
+    · exact h.1
+    · exact hall a ha'
+
+theorem c08_lookup_mem_kw (n : String) (v : PyVal) : ∀ kw : List (String × PyVal), lookup n kw = some v →
+    (n, v) ∈ kw
+  | [], h => by simp [lookup] at h
+  | (k, w) :: rest, h => by
+    simp only [lookup] at h
+    split at h
+    · rename_i hk
+      have : n = k := by simpa using hk
+      cases h; subst this; simp
+    · simp [c08_lookup_mem_kw n v rest h]
+
+theorem c08_jsonDocL_mem : ∀ (xs : List PyVal), jsonDocL xs = true → ∀ x ∈ xs, jsonDoc x = true
+  | [], _, _, h => by simp at h
+  | y :: ys, hd, x, h => by
+    simp only [jsonDocL, and_true_iff'] at hd
+    rcases List.mem_cons.mp h with rfl | h'
+    · exact hd.1
+    · exact c08_jsonDocL_mem ys hd.2 x h'
+
+/-- the class object admits objects only -/
+theorem c08_classObj_dict (R S) (c : ClassOpts) (fields : List (String × PyVal)) (v : PyVal)
+    (h : jsV R S (classObj c [] fields) v = true) : ∃ kvs, v = .dict kvs := by
+  unfold classObj at h
+  rw [jsV_dict _ _ _ _ (by simp [getKw, kw, keyIs])] at h
+  simp only [jsKws, and_true_iff'] at h
+  have hty : typeIs "object" v = true := by
+    simpa [kw, kwOf, kwOfStr, kwNode, kwLeaf, typeOk] using h.1
+  cases v <;> simp [typeIs] at hty
+  exact ⟨_, rfl⟩
+
+/-- `construct_fields_map` succeeds when every present non-null member is accepted by its field -/
+theorem c08_deserFields_acc (O : Oracles) (opts : DeserOpts) (c : ClassOpts) (kw : List (String × PyVal)) :
+    ∀ fs : List (String × FieldDecl),
+      (∀ n f, (n, f) ∈ fs → ∀ v, lookup n kw = some v →
+        v.isNone = false ∧ Accepted O opts c.ignoreNone f v) →
+      ∃ args, deserFields O opts c kw fs false = .ok args
+        ∧ (∀ n y, lookup n args = some y → ∃ f y', (n, f) ∈ fs ∧ validate O f y = .ok y')
+        ∧ (∀ n f, (n, f) ∈ fs → (lookup n kw).isSome = true → (lookup n args).isSome = true)
+        ∧ (∀ a ∈ args, (fs.map (·.1)).contains a.1 = true)
+  | [], _ => ⟨[], by simp [deserFields], by simp [lookup], by simp, by simp⟩
+  | (name, f) :: rest, hacc => by
+    obtain ⟨args, h1, h2, h3, h4⟩ := c08_deserFields_acc O opts c kw rest
+      (fun n g hm v hv => hacc n g (by simp [hm]) v hv)
+    cases hl : lookup name kw with
+    | none =>
+      refine ⟨args, by simp [deserFields, hl, h1], ?_, ?_, ?_⟩
+      · intro n y hy
+        obtain ⟨g, y', hm, hv⟩ := h2 n y hy
+        exact ⟨g, y', by simp [hm], hv⟩
+      · intro n g hm hs
+        rcases List.mem_cons.mp hm with heq | hm'
+        · cases heq; simp [hl] at hs
+        · exact h3 n g hm' hs
+      · intro a ha
+        have := h4 a ha
+        simp only [List.map_cons, List.contains_cons, Bool.or_eq_true]
+        right; exact this
+    | some v =>
+      obtain ⟨hnn, y, y', hd, hv⟩ := hacc name f (by simp) v hl
+      refine ⟨(name, y) :: args, by simp [deserFields, hl, hnn, hd, h1], ?_, ?_, ?_⟩
+      · intro n z hz
+        by_cases hn : n = name
+        · subst hn
+          simp [lookup] at hz
+          subst hz
+          exact ⟨f, y', by simp, hv⟩
+        · have hne : (n == name) = false := by simpa using hn
+          simp only [lookup, hne, Bool.false_eq_true, if_false] at hz
+          obtain ⟨g, z', hm, hvz⟩ := h2 n z hz
+          exact ⟨g, z', by simp [hm], hvz⟩
+      · intro n g hm hs
+        by_cases hn : n = name
+        · subst hn; simp [lookup]
+        · have hne : (n == name) = false := by simpa using hn
+          simp only [lookup, hne, Bool.false_eq_true, if_false]
+          rcases List.mem_cons.mp hm with heq | hm'
+          · cases heq; exact absurd rfl hn
+          · exact h3 n g hm' hs
+      · intro a ha
+        simp only [List.map_cons, List.contains_cons, Bool.or_eq_true]
+        rcases List.mem_cons.mp ha with rfl | ha'
+        · left; simp
+        · right; exact h4 a ha'
+
+/-- the whole `deserialize_structure_internal` of a class without defaults: per-field pass, then the
+    constructor — given that every present non-null member is accepted by its field, the required
+    members are present, and undeclared members are allowed or absent -/
+theorem c08_class_core (O : Oracles) (opts : DeserOpts) (c : ClassOpts) (fields : List (String × FieldDecl))
+    (kvs : List (PyVal × PyVal)) (kw : List (String × PyVal)) (hkw : kwOfDict kvs = some kw)
+    (hnd : nodupS (fields.map (·.1)) = true)
+    (hreqn : c.required.all (fields.map (·.1)).contains = true)
+    (hacc : ∀ n f, (n, f) ∈ fields → ∀ v, lookup n kw = some v →
+      v.isNone = false ∧ Accepted O opts c.ignoreNone f v)
+    (hreq : ∀ n ∈ c.required, (getKw n kvs).isSome = true)
+    (haddl : c.addl = true ∨ ∀ kv ∈ kvs, ∀ name, docKey kv.1 = some name → (fields.map (·.1)).contains name = true) :
+    ∃ attrs, (bindE (bindE (deserFields O opts c kw fields false)
+        (fun args => .ok (deserExtras opts c (fields.map (·.1)) kw ++ args))) fun args =>
+          vConstruct c (fields.map (·.1)) args (validateFields O c [] args fields)) = .ok (.inst c.name attrs) := by
+  obtain ⟨args, h1, h2, h3, h4⟩ := c08_deserFields_acc O opts c kw fields hacc
+  have hskip : ∀ n, (fields.map (·.1)).contains n = true →
+      lookup n (deserExtras opts c (fields.map (·.1)) kw ++ args) = lookup n args := by
+    intro n hn
+    apply c08_lookup_append_skip
+    intro a ha
+    have hf := (List.mem_filter.mp ha).2
+    simp only [and_true_iff', Bool.not_eq_true'] at hf
+    cases hk : (a.1 == n) with
+    | false => rfl
+    | true =>
+      have e : a.1 = n := by simpa using hk
+      rw [e, hn] at hf
+      simp at hf
+  have hbind : bindOk c (fields.map (·.1)) (deserExtras opts c (fields.map (·.1)) kw ++ args) = true := by
+    simp only [bindOk, and_true_iff', Bool.not_eq_true']
+    constructor
+    · rw [List.any_eq_false]
+      intro r hr
+      have hrn : (fields.map (·.1)).contains r = true := (List.all_eq_true.mp hreqn) r hr
+      rw [hskip r hrn]
+      have hk : (lookup r kw).isSome = true := by
+        rw [c08_lookup_kwOfDict r kvs kw hkw]; exact hreq r hr
+      have hrm : r ∈ fields.map (·.1) := by simpa using hrn
+      obtain ⟨p, hp, hp1⟩ := List.mem_map.mp hrm
+      have := h3 r p.2 (by rw [← hp1]; exact hp) hk
+      cases hl : lookup r args with
+      | none => simp [hl] at this
+      | some _ => simp
+    · cases ha : c.addl with
+      | true => simp
+      | false =>
+        simp only [Bool.not_false, Bool.true_and]
+        rw [List.any_eq_false]
+        intro a ha'
+        rcases List.mem_append.mp ha' with hx | hx
+        · have hmem := (List.mem_filter.mp hx).1
+          rcases haddl with h' | h'
+          · rw [ha] at h'; cases h'
+          · have := h' _ (c08_kwOfDict_mem kvs kw hkw a hmem) a.1 rfl
+            rw [this]; decide
+        · rw [h4 a hx]; decide
+  obtain ⟨attrs, hattrs⟩ := c08_validateFields_ok O c
+    (deserExtras opts c (fields.map (·.1)) kw ++ args) fields (by
+      intro n f hm y hy
+      have hn : (fields.map (·.1)).contains n = true := mem_names_of_mem n f fields hm
+      rw [hskip n hn] at hy
+      obtain ⟨g, y', hg, hv⟩ := h2 n y hy
+      have : g = f := c08_mem_unique n g f fields hnd hg hm
+      subst this
+      exact ⟨y', hv⟩)
+  exact ⟨extrasOf c (fields.map (·.1)) (deserExtras opts c (fields.map (·.1)) kw ++ args) ++ attrs,
+    by simp [h1, vConstruct, hbind, hattrs]⟩
+
+
+/-! ### the main induction: fields, elements and nested classes -/
+
+mutual
+/-- **exactness at field level** (exact scalars, `Array[X]`, `Tuple[X]`, nested classes by `$ref`, any
+    depth): a JSON document value that the field's schema admits is not null and is accepted by
+    `deserialize_single_field` and then by the field's validation -/
+theorem c08_exactN (O : Oracles) (S : String → String → Bool)
+    (hS : ∀ p s, startAnchored p = true → S p s = true → O.reMatch p s = true) (opts : DeserOpts) (D : Defs) :
+    ∀ (f : FieldDecl) (n : Nat) (ign : Bool) (v : PyVal), exactF f = true → RefsFaithful D f →
+      refDepth f ≤ n → jsonDoc v = true → jsV (resolver D S n) S (emit true f) v = true →
+      v.isNone = false ∧ Accepted O opts ign f v
+  | .seqOf k f sz, n, ign, v, hf, hrf, hd, hj, h => by
+    simp only [exactF, and_true_iff'] at hf
+    have hk : k = .list := by simpa using hf.1.1
+    subst hk
+    have hu : sz.uniq = false := by simpa using hf.1.2
+    simp only [RefsFaithful] at hrf
+    simp only [refDepth] at hd
+    simp only [emit] at h
+    obtain ⟨xs, rfl, hsz, hall⟩ := c08_jsV_arrOf_inv _ S sz (emit true f) (emit_shape true f) v h
+    simp only [jsonDoc] at hj
+    obtain ⟨ys, ys', hdd, hv, hl⟩ := c08_exact_items O opts f
+      (fun x => jsonDoc x = true ∧ jsV (resolver D S n) S (emit true f) x = true)
+      (fun x hx => (c08_exactN O S hS opts D f n false x hf.2 hrf hd hx.1 hx.2).2) xs
+      (fun x hx => ⟨c08_jsonDocL_mem xs hj x hx, List.all_eq_true.mp hall x hx⟩)
+    refine ⟨rfl, .list ys, .list ys', ?_, ?_⟩
+    · simp [deser, PyVal.isNone, dSeq, docSeq, hdd, toValueErr, mkSeq]
+    · have hl' : ys.length = xs.length := hl
+      simp [validate, vSeq, seqElems, uniqOk, hu, hl', hsz, hv, mkSeq]
+  | .tupleOf f u, n, ign, v, hf, hrf, hd, hj, h => by
+    simp only [exactF, and_true_iff'] at hf
+    have hu : u = false := by simpa using hf.1
+    subst hu
+    simp only [RefsFaithful] at hrf
+    simp only [refDepth] at hd
+    simp only [emit] at h
+    obtain ⟨xs, rfl, _, hall⟩ := c08_jsV_arrOf_inv _ S { uniq := false } (emit true f) (emit_shape true f) v h
+    simp only [jsonDoc] at hj
+    obtain ⟨ys, ys', hdd, hv, _⟩ := c08_exact_items O opts f
+      (fun x => jsonDoc x = true ∧ jsV (resolver D S n) S (emit true f) x = true)
+      (fun x hx => (c08_exactN O S hS opts D f n false x hf.2 hrf hd hx.1 hx.2).2) xs
+      (fun x hx => ⟨c08_jsonDocL_mem xs hj x hx, List.all_eq_true.mp hall x hx⟩)
+    refine ⟨rfl, .tuple ys, .tuple ys', ?_, ?_⟩
+    · simp [deser, PyVal.isNone, dSeq, docSeq, hdd, toValueErr]
+    · simp [validate, vTuple, uniqOk, hv]
+  | .struct c fields defaults, n, ign, v, hf, hrf, hd, hj, h => by
+    simp only [exactF, and_true_iff'] at hf
+    obtain ⟨⟨⟨⟨⟨hni, hdef⟩, hacc0⟩, hnd⟩, hreqn⟩, hex⟩ := hf
+    have hin : c.inline = false := by simpa using hni
+    have hdef' : defaults = [] := by simpa using hdef
+    subst hdef'
+    simp only [RefsFaithful] at hrf
+    simp only [refDepth, hin, Bool.false_eq_true, if_false] at hd
+    simp only [emit, hin, Bool.false_eq_true, if_false] at h
+    rw [jsV_refTo] at h
+    cases n with
+    | zero => omega
+    | succ m =>
+      have hlk : lookup ("#/definitions/" ++ c.name) D = some (classObj c [] (emitP true fields)) := by
+        rcases hrf.1 with h' | h'
+        · simp [hin] at h'
+        · exact h'
+      simp only [resolver, hlk] at h
+      obtain ⟨kvs, rfl⟩ := c08_classObj_dict _ S c _ v h
+      simp only [jsonDoc] at hj
+      obtain ⟨kw, hkw, hkwdoc⟩ := c08_jsonDoc_kw kvs hj
+      obtain ⟨hprops, hreq, haddl⟩ := c08_jsV_classObj_inv _ S c (emitP true fields) kvs h
+      rw [emitP_names] at haddl
+      obtain ⟨attrs, hcore⟩ := c08_class_core O opts c fields kvs kw hkw hnd hreqn
+        (fun nm f hm w hw =>
+          c08_exactN_fields O S hS opts D fields m hex hrf.2 (by omega) nm f hm c.ignoreNone w
+            (hkwdoc (nm, w) (c08_lookup_mem_kw nm w kw hw))
+            (hprops nm (emit true f) (c08_emitP_mem_of true nm f fields hm) w
+              (by rw [← c08_lookup_kwOfDict nm kvs kw hkw]; exact hw)))
+        hreq haddl
+      refine ⟨rfl, .inst c.name attrs, .inst c.name attrs, ?_, ?_⟩
+      · simp only [deser, PyVal.isNone, Bool.false_and, Bool.false_eq_true, if_false, hin, dClassRef, hkw]
+        exact hcore
+      · have hmem : c.name ∈ c.accepts := by simpa using hacc0
+        simp [validate, hin, vClassRef, hmem]
+  | .number o, n, ign, v, hf, _, _, _, h => by
+    have hf' : exactScalar (.number o) = true := by simpa [exactF] using hf
+    refine ⟨?_, exact_scalar O _ S hS opts ign _ v hf' h⟩
+    cases v <;> simp [PyVal.isNone]
+    rw [c08_exact_not_null _ S _ hf'] at h; cases h
+  | .integer o, n, ign, v, hf, _, _, _, h => by
+    have hf' : exactScalar (.integer o) = true := by simpa [exactF] using hf
+    refine ⟨?_, exact_scalar O _ S hS opts ign _ v hf' h⟩
+    cases v <;> simp [PyVal.isNone]
+    rw [c08_exact_not_null _ S _ hf'] at h; cases h
+  | .float o, n, ign, v, hf, _, _, _, h => by
+    have hf' : exactScalar (.float o) = true := by simpa [exactF] using hf
+    refine ⟨?_, exact_scalar O _ S hS opts ign _ v hf' h⟩
+    cases v <;> simp [PyVal.isNone]
+    rw [c08_exact_not_null _ S _ hf'] at h; cases h
+  | .string lo hi pat, n, ign, v, hf, _, _, _, h => by
+    have hf' : exactScalar (.string lo hi pat) = true := by simpa [exactF] using hf
+    refine ⟨?_, exact_scalar O _ S hS opts ign _ v hf' h⟩
+    cases v <;> simp [PyVal.isNone]
+    rw [c08_exact_not_null _ S _ hf'] at h; cases h
+  | .boolean, n, ign, v, _, _, _, _, h => by
+    refine ⟨?_, exact_scalar O _ S hS opts ign _ v rfl h⟩
+    cases v <;> simp [PyVal.isNone]
+    rw [c08_exact_not_null _ S _ rfl] at h; cases h
+  | .enumLit vs, n, ign, v, hf, _, _, _, h => by
+    have hf' : exactScalar (.enumLit vs) = true := by simpa [exactF] using hf
+    refine ⟨?_, exact_scalar O _ S hS opts ign _ v hf' h⟩
+    cases v <;> simp [PyVal.isNone]
+    rw [c08_exact_not_null _ S _ hf'] at h; cases h
+  | .enumCls cn names, n, ign, v, hf, _, _, _, h => by
+    have hf' : exactScalar (.enumCls cn names) = true := by simpa [exactF] using hf
+    refine ⟨?_, exact_scalar O _ S hS opts ign _ v hf' h⟩
+    cases v <;> simp [PyVal.isNone]
+    rw [c08_exact_not_null _ S _ hf'] at h; cases h
+  | .seqAny _ _, _, _, _, hf, _, _, _, _ => by simp [exactF] at hf
+  | .seqPos _ _ _ _, _, _, _, hf, _, _, _, _ => by simp [exactF] at hf
+  | .setAny _ _, _, _, _, hf, _, _, _, _ => by simp [exactF] at hf
+  | .setOf _ _ _, _, _, _, hf, _, _, _, _ => by simp [exactF] at hf
+  | .tuplePos _ _, _, _, _, hf, _, _, _, _ => by simp [exactF] at hf
+  | .mapAny _, _, _, _, hf, _, _, _, _ => by simp [exactF] at hf
+  | .mapOf _ _ _, _, _, _, hf, _, _, _, _ => by simp [exactF] at hf
+  | .anyOf _, _, _, _, hf, _, _, _, _ => by simp [exactF] at hf
+  | .oneOf _, _, _, _, hf, _, _, _, _ => by simp [exactF] at hf
+  | .allOf _, _, _, _, hf, _, _, _, _ => by simp [exactF] at hf
+  | .notF _, _, _, _, hf, _, _, _, _ => by simp [exactF] at hf
+  | .noneF, _, _, _, hf, _, _, _, _ => by simp [exactF] at hf
+  | .anything, _, _, _, hf, _, _, _, _ => by simp [exactF] at hf
+
+theorem c08_exactN_fields (O : Oracles) (S : String → String → Bool)
+    (hS : ∀ p s, startAnchored p = true → S p s = true → O.reMatch p s = true) (opts : DeserOpts) (D : Defs) :
+    ∀ (fields : List (String × FieldDecl)) (n : Nat), exactFields fields = true → RefsFaithfulP D fields →
+      refDepthP fields ≤ n → ∀ name f, (name, f) ∈ fields → ∀ (ign : Bool) (v : PyVal), jsonDoc v = true →
+      jsV (resolver D S n) S (emit true f) v = true → v.isNone = false ∧ Accepted O opts ign f v
+  | [], _, _, _, _, _, _, hm, _, _, _, _ => by simp at hm
+  | (k, g) :: fields, n, hf, hrf, hd, name, f, hm, ign, v, hj, h => by
+    simp only [exactFields, and_true_iff'] at hf
+    simp only [RefsFaithfulP] at hrf
+    simp only [refDepthP] at hd
+    rcases List.mem_cons.mp hm with heq | hm'
+    · have heq' : g = f := (Prod.mk.inj heq).2.symm
+      subst heq'
+      exact c08_exactN O S hS opts D g n ign v hf.1 hrf.1 (by omega) hj h
+    · exact c08_exactN_fields O S hS opts D fields n hf.2 hrf.2 (by omega) name f hm' ign v hj h
+end
+
+/-- **class level of exactness**: for a class of `inExactFragment` every JSON object that the class's
+    schema admits (class references resolved through the definitions, fuel covering their nesting) is
+    accepted by `Deserializer(cls).deserialize`, for every flag setting -/
+theorem c08_exact_class (O : Oracles) (S : String → String → Bool)
     (hS : ∀ p s, startAnchored p = true → S p s = true → O.reMatch p s = true)
-    (opts : DeserOpts) (cls : FieldDecl) (kvs : List (PyVal × PyVal)) (kw : List (String × PyVal))
-    (hfrag : inExactFragment cls = true) (hkw : kwOfDict kvs = some kw)
-    (h : jsV R S (classSchema true cls) (.dict kvs) = true) :
+    (opts : DeserOpts) (D : Defs) (cls : FieldDecl) (n : Nat) (kvs : List (PyVal × PyVal))
+    (hfrag : inExactFragment cls = true) (hrefs : ClassRefsFaithful D cls) (hd : refDepth cls ≤ n)
+    (hdoc : jsonDoc (.dict kvs) = true)
+    (h : jsV (resolver D S n) S (classSchema true cls) (.dict kvs) = true) :
     ∃ x, deserialize O opts cls (.dict kvs) = .ok x := by
   cases cls with
   | struct c fields defaults =>
     simp only [inExactFragment, and_true_iff'] at hfrag
     obtain ⟨⟨⟨⟨⟨hni, hdef⟩, hncol⟩, hnd⟩, hreqn⟩, hex⟩ := hfrag
+    have hin : c.inline = false := by simpa using hni
     have hdef' : defaults = [] := by simpa using hdef
     subst hdef'
+    simp only [ClassRefsFaithful] at hrefs
+    simp only [refDepth, hin, Bool.false_eq_true, if_false] at hd
     have hncol' : collapses c (fields.map (·.1)) = false := by simpa using hncol
     have hshape : structShape c [] (emitP true fields) = classObj c [] (emitP true fields) := by
       unfold structShape; rw [emitP_names]; simp [hncol']
     simp only [classSchema, hshape] at h
-    obtain ⟨hprops, hreq, haddl⟩ := c08_jsV_classObj_inv R S c (emitP true fields) kvs h
+    simp only [jsonDoc] at hdoc
+    obtain ⟨kw, hkw, hkwdoc⟩ := c08_jsonDoc_kw kvs hdoc
+    obtain ⟨hprops, hreq, haddl⟩ := c08_jsV_classObj_inv _ S c (emitP true fields) kvs h
     rw [emitP_names] at haddl
-    have hadm : ∀ n f, (n, f) ∈ fields → ∀ v, lookup n kw = some v → jsV R S (emit true f) v = true := by
-      intro n f hm v hv
-      rw [c08_lookup_kwOfDict n kvs kw hkw] at hv
-      exact hprops n (emit true f) (c08_emitP_mem_of true n f fields hm) v hv
-    obtain ⟨args, h1, h2, h3, h4⟩ := c08_deserFields_ok O R S hS opts c kw fields hex hadm
-    -- undeclared keys that are passed on are not field names
-    have hskip : ∀ n, (fields.map (·.1)).contains n = true →
-        lookup n (deserExtras opts c (fields.map (·.1)) kw ++ args) = lookup n args := by
-      intro n hn
-      apply c08_lookup_append_skip
-      intro a ha
-      have hf := (List.mem_filter.mp ha).2
-      simp only [and_true_iff', Bool.not_eq_true'] at hf
-      cases hk : (a.1 == n) with
-      | false => rfl
-      | true =>
-        have e : a.1 = n := by simpa using hk
-        rw [e, hn] at hf
-        simp at hf
-    have hbind : bindOk c (fields.map (·.1)) (deserExtras opts c (fields.map (·.1)) kw ++ args) = true := by
-      simp only [bindOk, and_true_iff', Bool.not_eq_true']
-      constructor
-      · rw [List.any_eq_false]
-        intro r hr
-        have hrn : (fields.map (·.1)).contains r = true := (List.all_eq_true.mp hreqn) r hr
-        rw [hskip r hrn]
-        have hk : (lookup r kw).isSome = true := by
-          rw [c08_lookup_kwOfDict r kvs kw hkw]; exact hreq r hr
-        have hrm : r ∈ fields.map (·.1) := by simpa using hrn
-        obtain ⟨p, hp, hp1⟩ := List.mem_map.mp hrm
-        have := h3 r p.2 (by rw [← hp1]; exact hp) hk
-        cases hl : lookup r args with
-        | none => simp [hl] at this
-        | some _ => simp
-      · cases ha : c.addl with
-        | true => simp
-        | false =>
-          simp only [Bool.not_false, Bool.true_and]
-          rw [List.any_eq_false]
-          intro a ha'
-          rcases List.mem_append.mp ha' with hx | hx
-          · -- no undeclared key at all: `additionalProperties: false`
-            have hmem := (List.mem_filter.mp hx).1
-            have hnc := (List.mem_filter.mp hx).2
-            rcases haddl with h' | h'
-            · rw [ha] at h'; cases h'
-            · have := h' _ (c08_kwOfDict_mem kvs kw hkw a hmem) a.1 rfl
-              rw [this]; decide
-          · rw [h4 a hx]; decide
-    obtain ⟨attrs, hattrs⟩ := c08_validateFields_ok O c
-      (deserExtras opts c (fields.map (·.1)) kw ++ args) fields (by
-        intro n f hm y hy
-        have hn : (fields.map (·.1)).contains n = true := mem_names_of_mem n f fields hm
-        rw [hskip n hn] at hy
-        obtain ⟨g, y', hg, hv⟩ := h2 n y hy
-        have : g = f := c08_mem_unique n g f fields hnd hg hm
-        subst this
-        exact ⟨y', hv⟩)
-    refine ⟨.inst c.name (extrasOf c (fields.map (·.1)) (deserExtras opts c (fields.map (·.1)) kw ++ args) ++ attrs), ?_⟩
-    simp [deserialize, dClassRef, hkw, h1, vConstruct, hbind, hattrs]
+    obtain ⟨attrs, hcore⟩ := c08_class_core O opts c fields kvs kw hkw hnd hreqn
+      (fun nm f hm w hw =>
+        c08_exactN_fields O S hS opts D fields n hex hrefs (by omega) nm f hm c.ignoreNone w
+          (hkwdoc (nm, w) (c08_lookup_mem_kw nm w kw hw))
+          (hprops nm (emit true f) (c08_emitP_mem_of true nm f fields hm) w
+            (by rw [← c08_lookup_kwOfDict nm kvs kw hkw]; exact hw)))
+      hreq haddl
+    exact ⟨.inst c.name attrs, by simp only [deserialize, dClassRef, hkw]; exact hcore⟩
   | _ => simp [inExactFragment] at hfrag
 
 end Typedpy.Sch
